@@ -60,6 +60,8 @@ ASSUMPTIONS = [
     "uninformative from a weight tolerance of 2e-2 (float64: 1e-3); constant float32 blocks are skipped",
     "constant blocks (single weighted members included: x*w/w may be one ulp off x) whose rounding noise 4*(n*eps*|x|)^2 can reach the "
     "absolute 1e-15 cutoff are skipped and counted, not judged",
+    "arguments a caller leaves out are judged with the DOCUMENTED defaults (tap documented=): block_split, filter(weights=None), "
+    "variance_to_weights(tol=1e-15, dtype='float64'), constructor parameters (compared with the stored ones after every __init__)",
     "the configuration of a call is the get_params() snapshot taken before the call; get_params() must be the same afterwards",
     "a block whose weights sum to zero makes np.average raise ZeroDivisionError on the unchanged code: the workload never builds one; "
     "members of weight exactly 0 count for the block geometry and the coordinates, not for mean, variance or sum of weights",
@@ -122,7 +124,12 @@ FLOORS = {
         "class:zero_weight_point_on_the_bounding_box:region_inferred": 20,
         "class:zero_weight_point_on_the_bounding_box:region_given": 6,
         "zero_weight_border_calls:points_on_the_box_with_weight_0": 110, "zero_weight_border_calls:uncertainty=True": 12,
-        "zero_weight_border_calls:uncertainty=False": 12,
+        "zero_weight_border_calls:uncertainty=False": 12, "eval:constructor_parameters_as_documented": 710,
+        "eval:defaults_equal_documented_defaults_spelled_out": 48, "defaulted_argument:BlockMean.filter.weights": 4,
+        "defaulted_argument:BlockMean.__init__.adjust": 490, "defaulted_argument:BlockMean.__init__.center_coordinates": 290,
+        "defaulted_argument:BlockMean.__init__.drop_coords": 410, "defaulted_argument:BlockMean.__init__.region": 290,
+        "defaulted_argument:BlockMean.__init__.uncertainty": 350, "defaulted_argument:variance_to_weights.tol": 1600,
+        "defaulted_argument:variance_to_weights.dtype": 1900,
     },
     "thorough": {
         "eval:blockmean_returns": 11600, "eval:blockmean_layout": 11600, "eval:labels_vs_reference_geometry": 11600,
@@ -182,7 +189,12 @@ FLOORS = {
         "class:zero_weight_point_on_the_bounding_box:region_inferred": 320,
         "class:zero_weight_point_on_the_bounding_box:region_given": 100,
         "zero_weight_border_calls:points_on_the_box_with_weight_0": 1700, "zero_weight_border_calls:uncertainty=True": 210,
-        "zero_weight_border_calls:uncertainty=False": 210,
+        "zero_weight_border_calls:uncertainty=False": 210, "eval:constructor_parameters_as_documented": 10500,
+        "eval:defaults_equal_documented_defaults_spelled_out": 570, "defaulted_argument:BlockMean.filter.weights": 68,
+        "defaulted_argument:BlockMean.__init__.adjust": 7200, "defaulted_argument:BlockMean.__init__.center_coordinates": 4300,
+        "defaulted_argument:BlockMean.__init__.drop_coords": 6000, "defaulted_argument:BlockMean.__init__.region": 4400,
+        "defaulted_argument:BlockMean.__init__.uncertainty": 5200, "defaulted_argument:variance_to_weights.tol": 25000,
+        "defaulted_argument:variance_to_weights.dtype": 29400,
     },
 }
 JOBS = {"quick": 1, "thorough": 16}
@@ -194,8 +206,8 @@ EPS = blk.EPS
 
 def plan(tier):
     if tier == "quick":
-        return collections.OrderedDict(blockmean=105, plateau=26, series=30, reject=8, nested=6, v2w=45, v2w_nested_readonly=8, reuse=20, inplace=12, reconfigure=30, spellings=36, large_offset=18, zero_weights=12, large=2)
-    return collections.OrderedDict(blockmean=1580, plateau=390, series=450, reject=60, nested=80, v2w=680, v2w_nested_readonly=60, reuse=300, inplace=180, reconfigure=450, spellings=540, large_offset=270, zero_weights=180, large=16)
+        return collections.OrderedDict(blockmean=105, plateau=26, series=30, reject=8, nested=6, v2w=45, v2w_nested_readonly=8, reuse=20, inplace=12, reconfigure=30, spellings=36, large_offset=18, zero_weights=12, defaults=5, large=2)
+    return collections.OrderedDict(blockmean=1580, plateau=390, series=450, reject=60, nested=80, v2w=680, v2w_nested_readonly=60, reuse=300, inplace=180, reconfigure=450, spellings=540, large_offset=270, zero_weights=180, defaults=60, large=16)
 
 
 # ----------------------------------------------------------------------
@@ -673,9 +685,14 @@ def install(tap, run):
             run.mark_nontrivial("blockmean", [np.asarray(x) for x in call.raw_coordinates], call.data, call.weights, rule,
                                 repr((est.spacing, est.shape, est.region, est.adjust, est.center_coordinates, est.drop_coords)))
 
-    tap.function(vc, "block_split")  # recorded only: the filter monitor reads the nested event
-    tap.function(vu, "variance_to_weights", pre=pre_v2w, post=post_v2w)
-    tap.method(verde.BlockMean, "filter", pre=pre_filter, post=post_filter)
+    def post_init(ev):
+        blk.judge_constructor(run, ev, "BlockMean.__init__")
+
+    # arguments the caller leaves out are judged with the DOCUMENTED defaults, not with the signature of the tree under test
+    tap.function(vc, "block_split", documented=blk.BLOCK_SPLIT_DEFAULTS)  # recorded only: the filter monitor reads the nested event
+    tap.function(vu, "variance_to_weights", pre=pre_v2w, post=post_v2w, documented=blk.V2W_DEFAULTS)
+    tap.method(verde.BlockMean, "__init__", post=post_init, documented=blk.INIT_DEFAULTS)
+    tap.method(verde.BlockMean, "filter", pre=pre_filter, post=post_filter, documented=blk.FILTER_DEFAULTS)
 
 
 # ----------------------------------------------------------------------
@@ -901,6 +918,41 @@ def _reconfigured(run, rng, verde):
     return {"constructed_with": kwargs, "used_before_the_change": used, "how": how, "changed_to": changes, "rule_in_force": rule}
 
 
+def _defaults(run, rng, verde):
+    """
+    BlockMean(spacing=s) with NO other argument behaves like the documented defaults spelled out (region=None, adjust='spacing',
+    center_coordinates=False, drop_coords=True, uncertainty=False); variance_to_weights(v) / (v, dtype='float32') like tol=1e-15 spelled out.
+    """
+    def check(what, bare, spelled, witness):
+        run.evaluated("defaults_equal_documented_defaults_spelled_out")
+        if not blk.same_output(bare, spelled):
+            run.violation("defaults_equal_documented_defaults_spelled_out", what + " differs from the call with the documented defaults spelled out",
+                          dict(witness, bare=bare, spelled_out=spelled), key="defaults:" + what.split("(")[0])
+
+    for _ in range(CALLS_PER_CASE):
+        east, north = blk.make_points(rng, n=int(rng.integers(8, 50)))
+        spacing = float(max(np.ptp(east), np.ptp(north), 1e-3) / rng.uniform(1.3, 5.5))
+        coords = (east, north, gen.smooth_field(rng, east, north, amplitude=30.0))
+        data = gen.smooth_field(rng, east, north, amplitude=float(10 ** rng.uniform(-1, 3)))
+        weights = None if rng.random() < 0.5 else 10 ** rng.uniform(-2, 2, east.size)
+        with warnings.catch_warnings():
+            warnings.simplefilter("ignore")
+            if weights is None:
+                bare = verde.BlockMean(spacing=spacing).filter(coords, data)
+            else:
+                bare = verde.BlockMean(spacing=spacing).filter(coords, data, weights)
+            spelled = verde.BlockMean(spacing=spacing, region=None, adjust="spacing", center_coordinates=False, uncertainty=False, shape=None,
+                                      drop_coords=True).filter(coords, data, weights=weights)
+        check("BlockMean(spacing=s).filter", bare, spelled, {"spacing": spacing, "coordinates": list(coords), "data": data, "weights": weights})
+        var, _ = _variance_array(rng)
+        var[int(rng.integers(0, var.size))] = 5e-14  # between the documented tolerance and a slacker one
+        var[int(rng.integers(0, var.size))] = 2e-16
+        check("variance_to_weights(v)", verde.variance_to_weights(var), verde.variance_to_weights(var, tol=1e-15, dtype="float64"), {"variance": var})
+        check("variance_to_weights(v, dtype='float32')", verde.variance_to_weights(var, dtype="float32"),
+              verde.variance_to_weights(var, tol=1e-15, dtype="float32"), {"variance": var})
+        check("variance_to_weights(v, tol=...)", verde.variance_to_weights(var, tol=1e-3), verde.variance_to_weights(var, tol=1e-3, dtype="float64"), {"variance": var})
+
+
 def _zero_weight_border(run, rng, verde):
     """
     Weights given, exactly 0.0 in all components on points ON the bounding box of the cloud (westernmost / northernmost ...), region NOT
@@ -1051,6 +1103,8 @@ def run_case(run, tap, stream, index, rng):
 
     if stream == "large":
         _large_call(run, rng, verde, index)
+    elif stream == "defaults":
+        _defaults(run, rng, verde)
     elif stream == "zero_weights":
         for _ in range(CALLS_PER_CASE):
             _zero_weight_border(run, rng, verde)
